@@ -10,6 +10,32 @@ NOTE = ("Trusted: Lean 4.33 kernel; axioms propext / Classical.choice / Quot.sou
         "standards. CPython's re/str/int semantics are modelled, not verified.")
 
 CLAIMS = {
+    "C12": dict(
+        text="Lean 4 theorems for EVERY registry (any list of bank entries) and BIC context: an unlisted (country, "
+             "bank code) pair raises InvalidBankCode from both lookups; for a listed pair the candidates are exactly "
+             "the non-empty BICs of the listed entries, primary entries first, each group in file order; the chosen "
+             "BIC is a candidate and follows the stated rule (greatest 8-character one if any, else greatest with "
+             "branch XXX, else the first - incl. proof that the `len > 1` guard is immaterial); every candidate "
+             "lists the bank code among its domestic bank codes and exists; iban.bank / iban.bic are the lookups on "
+             "the key formed from the bank-identifying fields (None when unlisted). Hypothesis `RegistryBicsOk` "
+             "(registry BICs valid and compact) is an obligation on the bundled data (C17). Tied to the code by "
+             "correspondence on bundled keys/BICs and on synthetic registries installed through the library's own "
+             "index builder, plus lookup-sequence (bank -> bic -> bank) streams.",
+        design="7 (C12)",
+        technique="Lean 4 proof (list/filter/max lemmas over arbitrary registries) + differential correspondence "
+                  "incl. synthetic registries and lookup sequences"),
+    "C18": dict(
+        text="Lean 4 theorems over ALL JSON documents (a nested inductive type; trees of any shape/depth): one-level "
+             "merge law, recursion exactly for dict/dict pairs, keys of the merge, an overlay leaves every path it "
+             "does not name untouched and puts every non-dict value it names at its path (both by induction on the "
+             "path), registry.get is the LEFT fold over the name-sorted files (with a kernel-checked witness that "
+             "the merge is not associative), v2 expansion laws. Instance obligation by kernel evaluation: the Lean "
+             "composition of the iban_registry files on disk equals the effective table of the live library; entry "
+             "counts of the bank files add up. Tied to the code by correspondence of merge_dicts, parse_v2 and "
+             "registry.get (temporary directories, adversarial file names).",
+        design="7 (C18)",
+        technique="Lean 4 proof (mutual structural recursion/induction over JSON trees) + decide +kernel on the "
+                  "regenerated registry files + differential correspondence"),
     "C07": dict(
         text="Lean 4 theorems, one per Bundesbank method, for ALL ten digits (10^10 account numbers, symbolic) and "
              "every incoming scratch state: the engine model instantiated with the class parameters and MRO hook "
